@@ -413,6 +413,10 @@ func tailAnchor(pP, pQ gammaPath) string {
 		return "one tail is obtained as 1 - (value of the evaluation routine) on a path whose guards never compare a with x: the routine is used where its tail is close to 1 and the complement loses all accuracy"
 	}
 	ks := kinds(pP.ret)
+	// the finite sums start from exp(-x) (resp. erfc(sqrt x)): they may only be selected below the underflow bound
+	if (ks["finite_gamma_q"] || ks["finite_half_gamma_q"]) && !pP.pure["lt(x, MaxLogFloat64)"] {
+		return "a finite-sum method, which scales its terms by exp(-x), is selected on a path without the guard x < MaxLogFloat64: beyond it the factor underflows and the upper tail is returned as 0"
+	}
 	want := ""
 	switch {
 	case ks["lgs"]:
